@@ -44,6 +44,44 @@ type PStep struct {
 type Fault struct {
 	Kind string `json:"kind"` // "", driver_err, visitor_err, tx_err, cursor_err, memlimit, cancel, deadline
 	K    int    `json:"k"`    // k-th arrival / scheduler step / deadline in ms
+	// error faults only: what the failing call returns (see mkErr) and how many of the following
+	// arrivals at the same site fail as well, each with the next shape (a backend that goes away fails
+	// every outstanding call, and not with one error type)
+	Shape int `json:"shape,omitempty"`
+	More  int `json:"more,omitempty"`
+}
+
+// queryError is a driver-specific error type.
+type queryError struct {
+	code  int
+	cause error
+}
+
+func (e *queryError) Error() string { return fmt.Sprintf("query failed (%d): %v", e.code, e.cause) }
+func (e *queryError) Unwrap() error { return e.cause }
+
+const nShapes = 7
+
+// mkErr builds the error of a failing call. Every shape is a failure of that call and wraps
+// errInjected; some also carry a context error of the call's own making (a per-query timeout, a
+// connection attempt that was given up) although the context handed to BreadthFirst is alive.
+func mkErr(shape int) error {
+	switch ((shape % nShapes) + nShapes) % nShapes {
+	case 0:
+		return errInjected
+	case 1:
+		return fmt.Errorf("driver: %w", errInjected)
+	case 2:
+		return &queryError{code: 57014, cause: errInjected}
+	case 3:
+		return errors.Join(errInjected, context.DeadlineExceeded)
+	case 4:
+		return fmt.Errorf("statement timeout: %w (%w)", context.DeadlineExceeded, errInjected)
+	case 5:
+		return fmt.Errorf("connection attempt abandoned: %w (%w)", context.Canceled, errInjected)
+	default:
+		return fmt.Errorf("pool: %w (%w)", graph.ErrContextTimedOut, errInjected)
+	}
 }
 
 type WL struct {
@@ -152,6 +190,11 @@ func gen(r *rand.Rand) WL {
 			w.SlowMs = 1 + r.IntN(40)
 		}
 	}
+	switch w.Fault.Kind {
+	case "driver_err", "visitor_err", "tx_err", "cursor_err":
+		w.Fault.Shape = r.IntN(nShapes)
+		w.Fault.More = []int{0, 0, 0, 1, 2, 8}[r.IntN(6)]
+	}
 	return w
 }
 
@@ -209,6 +252,8 @@ type env struct {
 	sim  *simrt.Sim
 	w    WL
 	live bool
+	// opaqueFired: some fired error carries no cancellation marker
+	opaqueFired bool
 }
 
 func (e *env) arrive(site string) bool {
@@ -218,14 +263,44 @@ func (e *env) arrive(site string) bool {
 	return e.sim.Arrive(site)
 }
 
+// fail returns the error of the planned fault if it fires at this arrival.
+func (e *env) fail(site string) error {
+	if !e.live || e.sim == nil {
+		return nil
+	}
+	return e.failAt(site)
+}
+
+// failAt is fail for sites outside the driver (the database stub's hooks).
+func (e *env) failAt(site string) error {
+	if !e.sim.Arrive(site) {
+		return nil
+	}
+	shape := e.w.Fault.Shape + e.sim.Fired(site) - 1
+	if !ctxShaped(shape) {
+		e.opaqueFired = true
+	}
+	return mkErr(shape)
+}
+
+// ctxShaped: the error also matches context.Canceled or graph.ErrContextTimedOut, which BreadthFirst
+// cannot tell from the echo of its own cancellation once the traversal context is done.
+func ctxShaped(shape int) bool { return ((shape%nShapes)+nShapes)%nShapes >= 5 }
+
+func planFault(s *simrt.Sim, f Fault) {
+	for i := 0; i <= f.More; i++ {
+		s.Plan(f.Kind, f.K+i)
+	}
+}
+
 func closureDriver(w WL, rec *recorder, e *env) traversal.Driver {
 	return func(ctx context.Context, tx graph.Transaction, seg *graph.PathSegment) ([]*graph.PathSegment, error) {
 		rec.visit(segKey(seg))
 		if e.live && w.SlowMs > 0 {
 			simrt.Sleep(time.Duration(w.SlowMs) * time.Millisecond)
 		}
-		if e.arrive("driver_err") {
-			return nil, errInjected
+		if err := e.fail("driver_err"); err != nil {
+			return nil, err
 		}
 		var next []*graph.PathSegment
 		if seg.Depth() >= w.Depth {
@@ -259,8 +334,8 @@ func patternDriver(w WL, rec *recorder, e *env) traversal.Driver {
 	}
 	inner := p.Do(func(terminal *graph.PathSegment) error {
 		rec.term(segKey(terminal))
-		if e.arrive("visitor_err") {
-			return errInjected
+		if err := e.fail("visitor_err"); err != nil {
+			return err
 		}
 		return nil
 	})
@@ -269,8 +344,8 @@ func patternDriver(w WL, rec *recorder, e *env) traversal.Driver {
 		if e.live && w.SlowMs > 0 {
 			simrt.Sleep(time.Duration(w.SlowMs) * time.Millisecond)
 		}
-		if e.arrive("driver_err") {
-			return nil, errInjected
+		if err := e.fail("driver_err"); err != nil {
+			return nil, err
 		}
 		return inner(ctx, tx, seg)
 	}
@@ -301,8 +376,8 @@ func lightweightDriver(w WL, rec *recorder, e *env, col *collectors) traversal.D
 	inner := traversal.LightweightDriver(dir, col.cache, nil, filter, func(next *graph.PathSegment) { col.nodes.Collect(next) })
 	return func(ctx context.Context, tx graph.Transaction, seg *graph.PathSegment) ([]*graph.PathSegment, error) {
 		rec.visit(segKey(seg))
-		if e.arrive("driver_err") {
-			return nil, errInjected
+		if err := e.fail("driver_err"); err != nil {
+			return nil, err
 		}
 		return inner(ctx, tx, seg)
 	}
@@ -402,12 +477,8 @@ func execBFS(t *testing.T, w WL, cfg simrt.Config) simh.Outcome {
 		ctx, cancel := context.WithCancel(context.Background())
 		_ = cancel
 		switch w.Fault.Kind {
-		case "driver_err", "visitor_err":
-			s.Plan(w.Fault.Kind, w.Fault.K)
-		case "tx_err":
-			s.Plan("tx_err", w.Fault.K)
-		case "cursor_err":
-			s.Plan("cursor_err", w.Fault.K)
+		case "driver_err", "visitor_err", "tx_err", "cursor_err":
+			planFault(s, w.Fault)
 		case "memlimit":
 			db.MemLimit = 1
 		case "memlimit_mid":
@@ -423,14 +494,14 @@ func execBFS(t *testing.T, w WL, cfg simrt.Config) simh.Outcome {
 			ctx, cancel = context.WithTimeout(ctx, time.Duration(w.Fault.K)*time.Millisecond)
 		}
 		db.Hook = func(_ context.Context, site string) error {
-			if site == "ReadTransaction" && s.Arrive("tx_err") {
-				return errInjected
+			if site == "ReadTransaction" {
+				return e.failAt("tx_err")
 			}
 			return nil
 		}
 		db.CursorEnd = func(site string, rows int) (int, error) {
-			if s.Arrive("cursor_err") {
-				return rows / 2, errInjected
+			if err := e.failAt("cursor_err"); err != nil {
+				return rows / 2, err
 			}
 			return rows, nil
 		}
@@ -469,7 +540,12 @@ func execBFS(t *testing.T, w WL, cfg simrt.Config) simh.Outcome {
 	}
 	switch {
 	case fired("driver_err") || fired("visitor_err") || fired("tx_err") || fired("cursor_err"):
-		if retErr == nil || !errors.Is(retErr, errInjected) {
+		if retErr == nil && !e.opaqueFired && len(got) == len(want) {
+			// every fired error looks like a cancellation and the traversal had expanded everything: the
+			// failing call may have come after the coordinator ended the traversal context, where such an
+			// error is indistinguishable from the echo of that cancellation
+			counters["late_context_shaped_error_dropped"]++
+		} else if retErr == nil || !errors.Is(retErr, errInjected) {
 			// a cancellation that raced ahead is not in play here: only the injected error was introduced
 			o.Class, o.Detail = "oracle:first_error", fmt.Sprintf("an injected %s fired but BreadthFirst returned %v", w.Fault.Kind, retErr)
 		}
@@ -773,7 +849,7 @@ func execLightweight(t *testing.T, w WL, cfg simrt.Config) simh.Outcome {
 		_ = cancel
 		switch w.Fault.Kind {
 		case "driver_err":
-			s.Plan("driver_err", w.Fault.K)
+			planFault(s, w.Fault)
 		case "cancel":
 			s.OnStep = func(step int) {
 				if step == w.Fault.K {
